@@ -53,7 +53,7 @@ def main():
         m["hooks"]["source_commits"] = [h.split()[0] for h in heads if h.split(" ", 1)[1].startswith("verif:")]
     except Exception:
         pass
-    m["notes"] = "See DESIGN.md. known_findings.json lists recorded and fixed defects."
+    m["notes"] = "See DESIGN.md (section 0 = as-built summary, 0b'' = latest round) and spec/README.md (index of the TLA+ specification family). known_findings.json / known_findings.d list recorded and fixed defects; seeded/ holds the seeded changes and seeded/RESULTS.md which check catches which."
     json.dump(m, open(os.path.join(V, "MANIFEST.json"), "w"), indent=1)
 
 main()
